@@ -324,6 +324,19 @@ def reListIterDict (c : DCtx) (i : Nat) (recurse : Bool) : Except Err (List (Lis
     | .error e => .error e
     | .ok _ => .error .nameError
 
+/-- what the caller passed as `groupdict=`: `None` (the default), a `dict`, anything else -/
+inductive GdKind | none | dict | other
+deriving Repr, DecidableEq
+
+/-- the `if groupdict is None: … elif isinstance(groupdict, dict) is True: … else: raise ValueError`
+ladder of `re_match_iter_typed` and `re_list_iter_typed`: `plain` is the answer of the group-index
+path, `dict` that of the `get_regex_typed_dict` path -/
+def gdDispatch {α : Type} (k : GdKind) (plain dict : Except Err α) : Except Err α :=
+  match k with
+  | .none => plain
+  | .dict => dict
+  | .other => .error .valueError
+
 /-! ### stale configs (outside the property's quantifier) -/
 
 /-- `if self.confobj is not None and self.confobj.search_safe is False: raise NotImplementedError`,
